@@ -34,6 +34,21 @@ paragraph with the same field names (M.reread-parsed, a sub-count of M.reread). 
 assign, dump, re-read - is driven on paragraphs parsed from ordinary documents, with hostile assigned values judged
 as on the assignment side (M.must-reject / M.unchanged).
 
+SUBCLASS LAYER (case kind ``sub``): the same assignment -> dump -> re-read discipline on ``Dsc``, ``Changes``,
+``BuildInfo``, ``Sources``, ``Packages``, ``Release`` and ``PdiffIndex`` paragraphs (plain ``Deb822`` as control), for
+ordinary fields AND for field NAMES that are multivalued in one class but ordinary text in another (Files,
+Checksums-*, MD5Sum, SHA1, SHA256, SHA256-History ...).  A case is a HISTORY of self-contained steps in one process:
+*prime* steps let a class in which the name is multivalued parse it / be assigned records or a string under it
+(nothing is demanded of them), *judge* steps assign a mostly hostile string to a class in which the name is an
+ordinary field and are judged exactly as above (M.must-reject / M.unchanged / K; M.cross-class counts the judged
+assignments of a name some other class has handled as multivalued before).  Acceptance or rejection must not depend
+on what other classes or objects did before.  An accepted value is dumped and re-read through THAT class's own
+``iter_paragraphs`` / constructor with an explicit strict setting, from text, line lists and files (M.reread-sub, a
+sub-count of M.reread) - in particular values holding a whitespace-only continuation line followed by further fields,
+where ``whitespace-separates-paragraphs=False`` must be honoured at every stage of the subclass constructors.
+A witness is re-executed in a fresh interpreter (the judged step alone, the case, the case with the preceding steps of
+the process as ``prelude``) and the smallest one that fails there is reported.
+
 Auxiliary K-monitor: contract on the exceptional exit of
 ``Deb822.__setitem__`` (every binding): the mapping is unchanged.
 
@@ -101,7 +116,33 @@ RULE = ('Values: (1) ENUMERATED - every concatenation of <= 5 (quick) / <= 7 (th
         'hostile random values as in (2)) to present / new fields of every paragraph (first three), each judged as on the '
         'assignment side, and after at least one accepted assignment the dump is re-read (str, bytes; for half of the cases one more '
         '(form, API) pair of (3)).  A document is NON-TRIVIAL when a physical line contains CR or it has a continuation '
-        'line; distinct = distinct list of lines.')
+        'line; distinct = distinct list of lines.  '
+        '(5) SUBCLASS LAYER - histories of self-contained steps on fresh Dsc / Changes / BuildInfo / Sources / Packages / '
+        'Release / PdiffIndex / Deb822 objects, executed FIRST in every shard process (no class has handled any multivalued '
+        'name yet).  A PRIME step lets a class in which name X is multivalued handle X: parse a document holding X records '
+        '(str, bytes, line lists, generator, StringIO, BytesIO; constructor or iter_paragraphs; records on continuation '
+        'lines or one record on the field line), item-assign / update / construct-from-dict a record list, a single '
+        'record, or a STRING (often the very string judged next) - followed by dump, re-read and copy(), each on its own.  '
+        'A JUDGE step builds a paragraph of a class in which the target name is an ordinary field (by assignment, from a '
+        'dict, by parsing its own dump from str / StringIO; six layouts: target middle / first / before or after the '
+        "class's own multivalued field holding records / new-last / sole), assigns one string (item assignment, update, "
+        'setdefault, cls(dict), and re-checked after copy()) and is judged as in (1)-(3).  (5a) CROSS-CLASS ENUMERATION: '
+        'every (name X of 14, class A where X is multivalued, class B where it is ordinary) - 133 triples - x 6 ways of '
+        'priming x 2 orders (quick: three of the six ways per order, complementary between the orders): [prime A; B hostile; B accepted value; B2 hostile] and [B hostile; prime A; B same hostile; B2 '
+        'accepted; B hostile], the order-2 cases first; hostile / accepted values rotate over 10 + 8 fixed strings incl. '
+        'record look-alikes.  (5b) WHITESPACE-ONLY CONTINUATION: 8 classes x 10 accepted values holding a whitespace-only '
+        'continuation line (LF, CR LF and CR boundaries) x 3 layouts in which further fields follow x 2 builds; each (class, '
+        'value) (quick: two of the three layouts) re-read once in ALL 19 (form, API) pairs of its class (+ str through Deb822), the other variants in 2 + 5.  (5c) FIELDS: every class x each '
+        'of its usual ordinary fields, its relationship fields, Version, Package-List: 3 hostile + 1 accepted value.  '
+        '(5d) SEEDED HISTORIES of 1..6 steps (35% primes) around one focal name (75%), targets: focal name / a name '
+        "multivalued elsewhere / the class's own fields / Package-List / a new name; values 30% with a whitespace-only "
+        'continuation line, 55% random as in (2), 15% fixed.  RE-READ of an accepted subclass assignment: str through '
+        'cls.iter_paragraphs always, plus (alternating by a CRC of the value) bytes through cls.iter_paragraphs or str '
+        'through Deb822.iter_paragraphs; a value with a blank continuation line: '
+        '+3 LF-only iter forms and 2 constructor forms; a CR value: +1..3; half of the rest: +1; out of StringIO, BytesIO, '
+        'line lists with/without LF (as list for iter_paragraphs, as iterator AND as plain list for the constructor), text '
+        'and binary file written by dump(fd); each with strict={whitespace-separates-paragraphs: False} and, when no value of '
+        'the paragraph has a blank continuation line, with strict=None.')
 ASSUMPTIONS = [
     'vp.models.deb822value (30 lines) states the three defects of the property: value ends in LF; a line after the '
     'first is empty; a line after the first does not start with space/tab.  Lines are split on LF, CR LF, CR; a '
@@ -149,6 +190,33 @@ ASSUMPTIONS = [
     '--replay always runs it, with all 18 (form, API) re-read pairs).',
     'Deb822(dict) with a defective value: any exception counts as a rejection on that route (the statement speaks of '
     'assignment to a field of an existing paragraph); the exception types seen are recorded in coverage.ctor_reject_types.',
+    'SUBCLASS LAYER.  Dsc, Changes, BuildInfo, Sources, Packages, Release, PdiffIndex are Deb822 paragraphs; the statement '
+    'is taken to hold for every field of them that the class treats as TEXT.  Guards: (i) a (class, name) pair is judged '
+    'only if the name is multivalued in that class neither per the reference table MV_MODEL (the documented '
+    '_multivalued_fields of the seven classes) nor per the declaration the class itself carries when the shard starts '
+    '(snapshot before any workload; recorded in coverage.multivalued_declared_at_start, differences from the table in '
+    'coverage.multivalued_declaration_differs_from_reference_table) - what a class comes to treat as multivalued LATER, '
+    'because of what other classes or objects did, is not part of the domain and is exactly what the histories look for; '
+    '(ii) nothing is demanded of a prime step: a class may accept or refuse records or strings under its multivalued '
+    'names, fail to dump them, fail to copy() (the present tree cannot copy() a paragraph holding record lists) - every '
+    'exception is only counted (sub:prime-raised:*); (iii) a judged paragraph that the class cannot build or dump BEFORE '
+    'the judged assignment (ordinary values and well-formed records only) is skipped and counted (sub:build-raised:*); '
+    'a paragraph with a record-list neighbour is never constructed from a mapping and never copied (the classes cannot '
+    'do that today), it is built by assignment and assigned to by item assignment; (iv) cls(dict) with the judged value: '
+    'any exception counts as rejection, as on the plain route; copy() raising anything is no demand; (v) no must-accept '
+    'demand: a value without stated defect that a class rejects (after whatever history) is only counted; (vi) the '
+    're-read compares the paragraph count and field NAMES only, through the class of the paragraph (the records of its '
+    'own multivalued fields are re-parsed by it) and once through plain Deb822; the default setting (strict=None) is '
+    'consulted only when NO str value of the paragraph has a blank continuation line - also for Sources / Packages, whose '
+    'iter_paragraphs documents whitespace-separates-paragraphs=False as its default (no demand is built on that '
+    'default); (vii) the constructor on a plain list reads one paragraph: only its names are compared; (viii) python-apt '
+    'is absent, so Sources/Packages.iter_paragraphs run the internal parser (their request for apt_pkg only warns; the '
+    'warning is filtered); (ix) witnesses: the library may keep state between classes, so a violating step is re-executed '
+    'in a fresh interpreter - alone, with the earlier steps of its case, with the last 60 steps of the process as '
+    'prelude (run unjudged on replay) - at most 6 confirmations per shard; the mechanism key gets the suffix '
+    '/depends-on-what-other-classes-or-objects-did-before when the step alone passes there.  Cases of the older kinds run '
+    'AFTER the subclass layer in the same process: on a tree that leaks state across classes their witnesses may not '
+    'reproduce standalone (the confirmed subclass-layer witnesses do).',
 ]
 ANCHORS = ['debian.deb822:Deb822.validate_input',
            'debian.deb822:Deb822.__setitem__',
@@ -217,6 +285,46 @@ FLOORS = {'quick': {'nontrivial': 58000,
                                     'parse:form:lines-gen': 44000, 'parse:form:stringio': 44000,
                                     'parse:form:bytesio': 80000, 'parse:form:textfile': 44000,
                                     'parse:form:binfile': 44000, 'parse:form:str': 1900, 'parse:form:bytes': 2000}}}
+
+# SUBCLASS LAYER floors (same rule: ~50% of the minimum measured over seeds 0-3 quick / seed 0 thorough; the enumeration
+# counters are deterministic and must be complete).  A run that never drives the subclasses, never gets a name primed in
+# one class and judged in another, or never re-reads a whitespace-only continuation through the subclass entry points
+# is INCONCLUSIVE.  No floors on sub:prime-raised:* / sub:rejected* (the library's choice).
+_SUB_CLASSES = ['Dsc', 'Changes', 'BuildInfo', 'Sources', 'Packages', 'Release', 'PdiffIndex', 'Deb822']
+_SUB_PRIME_CLASSES = ['Dsc', 'Changes', 'BuildInfo', 'Sources', 'Release', 'PdiffIndex']
+_SUB_PRIME_HOWS = ['parse:lines', 'setitem:recs', 'setitem:string', 'dict:recs', 'dict:string', 'update:string']
+_SUB_FLOORS = {
+    'quick': {'monitors': {'M.cross-class': 2500, 'M.reread-sub': 13000, 'M.sub.must-reject': 1800},
+              'counters': {'sub:case:enum': 798, 'sub:case:ws-enum': 320, 'sub:case:field-enum': 93, 'sub:case:hist': 700,
+                           'sub:judge': 3300, 'sub:prime': 950, 'sub:cross-class-history': 740,
+                           'sub:cross-class-history:judge-first': 350, 'sub:cross-class-history:prime-first': 380,
+                           'sub:hostile-after-prime-of-name': 1250, 'sub:judge-after-prime-in-same-case': 1550,
+                           'sub:judge-before-any-prime-of-name': 80, 'sub:judge-same-string-as-prime': 250,
+                           'sub:judge:name-multivalued-in-another-class': 2650,
+                           'sub:judge-with-own-multivalued-neighbour': 780, 'sub:ws-only-continuation-followed': 600,
+                           'sub:route:copy': 330, 'sub:route:ctor': 370, 'sub:route:setdefault': 135,
+                           'sub:route:update': 490, 'sub:build:parse': 720, 'sub:build:parse-stream': 620,
+                           'sub:build:dict': 470, 'sub:copy-checked': 180,
+                           'sub:ws-reread-form:str': 1000, 'sub:ws-reread-form:bytes': 540,
+                           'sub:ws-reread-form:stringio': 430, 'sub:ws-reread-form:bytesio': 330,
+                           'sub:ws-reread-form:lines-nl': 410, 'sub:ws-reread-form:lines-bare': 470,
+                           'sub:ws-reread-form:lines-nl-seq': 125, 'sub:ws-reread-form:lines-bare-seq': 155,
+                           'sub:ws-reread-form:textfile': 460, 'sub:ws-reread-form:binfile': 360},
+              'per-class': {'sub:judge:%s': 310, 'sub:accepted:%s': 180, 'sub:ws-only-continuation-followed:%s': 55,
+                            'sub:ws-reread:%s:iter': 260, 'sub:ws-reread:%s:ctor': 145,
+                            'sub:reread-explicit-strict:%s:iter': 640, 'sub:reread-explicit-strict:%s:ctor': 280},
+              'per-prime-class': {'sub:prime-cls:%s': 95}, 'per-how': {'sub:prime:%s': 145}},
+    'thorough': {'monitors': {}, 'counters': {}, 'per-class': {}, 'per-prime-class': {}, 'per-how': {}},
+}
+for _tier, _f in _SUB_FLOORS.items():
+    FLOORS[_tier]['monitors'].update(_f['monitors'])
+    FLOORS[_tier]['counters'].update(_f['counters'])
+    for _pat, _n in _f['per-class'].items():
+        FLOORS[_tier]['counters'].update((_pat % _c, _n) for _c in _SUB_CLASSES)
+    for _pat, _n in _f['per-prime-class'].items():
+        FLOORS[_tier]['counters'].update((_pat % _c, _n) for _c in _SUB_PRIME_CLASSES)
+    for _pat, _n in _f['per-how'].items():
+        FLOORS[_tier]['counters'].update((_pat % _h, _n) for _h in _SUB_PRIME_HOWS)
 
 WS_FALSE = {'whitespace-separates-paragraphs': False}
 
@@ -762,6 +870,704 @@ def run_penum(ctx, case):
 
 
 # ---------------------------------------------------------------------------
+# SUBCLASS LAYER: the same assignment -> dump -> re-read discipline on Dsc, Changes, BuildInfo, Sources, Packages,
+# Release and PdiffIndex paragraphs (plain Deb822 rides along as a control class).  A case of kind 'sub' is a HISTORY
+# of self-contained steps executed in one process, each on a fresh object:
+#   prime - a class in which field name X is MULTIVALUED (so its value is not validated as text there) parses X / is
+#           assigned records or a string under X.  Nothing is demanded of a prime step; it only makes history.
+#   judge - a class in which the target name is an ORDINARY text field is assigned a (mostly hostile) string; judged
+#           exactly as on the assignment side (M.must-reject / M.unchanged / K), and an accepted value is dumped and
+#           re-read through THAT class's own iter_paragraphs / constructor with an explicit strict setting.
+# Acceptance or rejection of a value by class B must not depend on what other classes or objects did before.
+
+SUBCLASSES = ['Dsc', 'Changes', 'BuildInfo', 'Sources', 'Packages', 'Release', 'PdiffIndex', 'Deb822']
+_SRC_MV = {'files': 3, 'checksums-sha1': 3, 'checksums-sha256': 3, 'checksums-sha512': 3}
+_PDIFF_MV = [p + h + '-' + k for p in ('', 'x-unmerged-') for h in ('sha1', 'sha256')
+             for k in ('history', 'patches', 'download')] + ['sha1-current', 'sha256-current']
+# independent model of which field names each class documents as multivalued (lower case -> number of record columns)
+MV_MODEL = {
+    'Dsc': dict(_SRC_MV),
+    'Changes': dict(_SRC_MV, files=5),
+    'Sources': dict(_SRC_MV),
+    'BuildInfo': {'checksums-md5': 3, 'checksums-sha1': 3, 'checksums-sha256': 3, 'checksums-sha512': 3},
+    'Release': {'md5sum': 3, 'sha1': 3, 'sha256': 3, 'sha512': 3},
+    'PdiffIndex': dict((n, 2 if n.endswith('current') else 3) for n in _PDIFF_MV),
+    'Packages': {},
+    'Deb822': {},
+}
+DISPLAY = {'files': 'Files', 'checksums-sha1': 'Checksums-Sha1', 'checksums-sha256': 'Checksums-Sha256',
+           'checksums-sha512': 'Checksums-Sha512', 'checksums-md5': 'Checksums-Md5', 'md5sum': 'MD5Sum', 'sha1': 'SHA1',
+           'sha256': 'SHA256', 'sha512': 'SHA512', 'sha1-history': 'SHA1-History', 'sha256-history': 'SHA256-History',
+           'sha1-patches': 'SHA1-Patches', 'sha256-patches': 'SHA256-Patches', 'sha1-download': 'SHA1-Download',
+           'sha256-download': 'SHA256-Download', 'sha1-current': 'SHA1-Current', 'sha256-current': 'SHA256-Current',
+           'x-unmerged-sha1-history': 'X-Unmerged-SHA1-History', 'x-unmerged-sha256-history': 'X-Unmerged-SHA256-History',
+           'x-unmerged-sha1-patches': 'X-Unmerged-SHA1-Patches', 'x-unmerged-sha256-patches': 'X-Unmerged-SHA256-Patches',
+           'x-unmerged-sha1-download': 'X-Unmerged-SHA1-Download',
+           'x-unmerged-sha256-download': 'X-Unmerged-SHA256-Download'}
+# the names driven through the complete cross-class enumeration (every class pair); the random histories use all
+ENUM_X = ['files', 'checksums-sha1', 'checksums-sha256', 'checksums-sha512', 'checksums-md5', 'md5sum', 'sha1', 'sha256',
+          'sha512', 'sha1-history', 'sha256-history', 'sha1-patches', 'sha256-download', 'x-unmerged-sha1-history']
+ALL_X = sorted(DISPLAY)
+# ordinary text fields of every class (none of them multivalued in THAT class)
+CLASS_FIELDS = {
+    'Dsc': ['Format', 'Source', 'Binary', 'Architecture', 'Version', 'Maintainer', 'Build-Depends', 'Package-List',
+            'Description'],
+    'Changes': ['Format', 'Date', 'Source', 'Binary', 'Architecture', 'Version', 'Distribution', 'Changed-By',
+                'Description', 'Changes'],
+    'BuildInfo': ['Format', 'Source', 'Binary', 'Architecture', 'Version', 'Build-Origin', 'Build-Date',
+                  'Installed-Build-Depends', 'Environment', 'Files'],
+    'Sources': ['Package', 'Binary', 'Version', 'Maintainer', 'Build-Depends', 'Architecture', 'Directory',
+                'Package-List', 'Section'],
+    'Packages': ['Package', 'Source', 'Version', 'Depends', 'Pre-Depends', 'Description', 'Filename', 'MD5sum', 'SHA256',
+                 'Built-Using'],
+    'Release': ['Origin', 'Label', 'Suite', 'Codename', 'Date', 'Architectures', 'Components', 'Description', 'Files'],
+    'PdiffIndex': ['Canonical-Name', 'Canonical-Path', 'X-Patch-Precedence', 'X-DAK-Older-Patches', 'MD5Sum', 'Files'],
+    'Deb822': NAME_POOL + ['Files', 'SHA256'],
+}
+HOSTILE_X = ['a\nB: x', 'a\n\n b', 'a\n', 'a\rInj: y', '\nB: x', 'a\n b\nK:v', ' 0123 12 n_1.dsc\nXtra:',
+             '\n 0123abcd 12 n_1.0.dsc\n\n 4567ef 8 n_1.0.tar.gz', 'a\r\nB:\tx', '\n 01 2 n\nInj: y\n 34 5 m']
+GOOD_X = ['ok', 'a\n b', '\n 0123abcd 12 n_1.0.dsc\n 4567ef 3456 n_1.0.tar.gz', 'a\n \n b', '\n b\n .\n c', 'a\r b',
+          '\n 01 2 n\n\t\n 34 5 m', 'x\n Inj: y\n  \n B: x']
+# accepted values holding a whitespace-only continuation line (with and without text behind it)
+WS_VALUES = ['a\n \n b', 'a\n\t\n b', '\n \n b', 'a\n .\n  \n c\n \t \n d', 'a\n ', 'a\r\n \r\n b', 'a\r \r b',
+             'a\n b\n \t', '\n 0123 12 n.dsc\n \n 4567 8 m.dsc', 'a\n \n B: x']
+RECS = [[['0123456789abcdef0123456789abcdef', '1234', 'hello_1.0-1.dsc', 'optional', 'hello_1.0-1_amd64.deb', 'x'],
+         ['fedcba9876543210fedcba9876543210', '56', 'hello_1.0.orig.tar.gz', 'extra', 'hello_1.0-1.dsc', 'y']],
+        [['aa', '1', 'main/binary-amd64/Packages', 'devel', 'n', 'z']],
+        [['d41d8cd9', '0', '2024-01-01-0000.00', 'net', 'p.gz', 'q'], ['e3b0c442', '98765432', '2024-01-02-0000.00',
+                                                                        'net', 'q.gz', 'r'],
+         ['9f86d081', '7', 'T-2024-01-03-0000.00-F-2024-01-01', 'misc', 's.gz', 't']]]
+PRIME_HOWS = [('parse', 'lines'), ('setitem', 'recs'), ('setitem', 'string'), ('dict', 'recs'), ('dict', 'string'),
+              ('update', 'string')]
+PRIME_FORMS = ['str', 'lines-bare', 'stringio', 'bytes', 'bytesio', 'lines-nl', 'lines-gen']
+SUB_ROUTES = ['setitem', 'setitem', 'update', 'ctor', 'setitem', 'setdefault', 'copy']
+SUB_BUILDS = ['assign', 'parse', 'assign', 'dict', 'parse-stream']
+SUB_RANDOM_TOTAL = {'quick': 1400, 'thorough': 120000}
+SUBLOG_KEEP = 400
+PRELUDE_STEPS = 60
+
+DECL = {}                # class name -> {lower-case name: record keys} as the class declares them at import time
+PRIMED = set()           # lower-case names some prime step of this process has touched
+SUBLOG = []              # the steps this process executed in earlier 'sub' cases (most recent last)
+CONFIRM_BUDGET = [6]     # violations per shard whose witness is confirmed in a fresh interpreter
+
+
+def sub_cls(name):
+    from debian import deb822
+    return getattr(deb822, name)
+
+
+def snapshot_decl():
+    """What each class declares as multivalued, read ONCE before any workload runs: the declaration at import time
+    is part of the domain (a name a class declares multivalued is never judged as text there); whatever a class
+    learns later from other classes or objects is not."""
+    if DECL:
+        return
+    for c in SUBCLASSES:
+        mv = getattr(sub_cls(c), '_multivalued_fields', None) or {}
+        DECL[c] = dict((str(k).lower(), [str(x) for x in v]) for k, v in mv.items())
+
+
+def ordinary(clsname, name):
+    """name is an ordinary text field of the class: neither the reference table nor the class's own declaration (as
+    snapshot at start) says multivalued."""
+    n = name.lower()
+    return n not in MV_MODEL[clsname] and n not in DECL[clsname]
+
+
+def spell(x, k):
+    d = DISPLAY[x]
+    return (d, d, x, d.upper(), d)[k % 5]
+
+
+def make_records(keys, spec):
+    recs = [dict(zip(keys, (toks + ['x'] * len(keys))[:len(keys)])) for toks in spec['recs']]
+    return recs[0] if spec.get('single') else recs
+
+
+def sub_plan(depth, sel):
+    """Extra (form, api) pairs of a subclass-layer re-read, beyond str x cls.iter_paragraphs and bytes x cls / str x Deb822."""
+    if depth == 'all':
+        return SUB_ALL
+    if depth == 'ws':       # whitespace-only continuation: text, lines and file forms, iterator and constructor
+        ctor = ALL_FORMS + list(SEQ_FORMS)
+        return [(('stringio', 'lines-nl')[(sel >> 6) & 1], 'iter'), (('lines-bare', 'bytesio')[(sel >> 7) & 1], 'iter'),
+                (DISK_LF_FORMS[sel & 1], 'iter'), (ctor[(sel >> 1) % len(ctor)], 'ctor'),
+                (ctor[((sel >> 1) + 1 + (sel >> 9) % 5) % len(ctor)], 'ctor')]
+    if depth == 'one':
+        ctor = ALL_FORMS + list(SEQ_FORMS)
+        combos = [(f, 'iter') for f in LF_FORMS] + [(f, 'ctor') for f in ctor]
+        return [combos[sel % len(combos)]]
+    return plan(depth, sel)
+
+
+# ---- generators (pure functions of indices / the seeded stream; every step is JSON)
+
+def mk_prime(a, x, hi, i, v):
+    how, payload = PRIME_HOWS[hi]
+    name = spell(x, i)
+    st = {'op': 'prime', 'cls': a, 'name': name, 'how': how}
+    recs = RECS[i % len(RECS)]
+    if payload == 'lines':
+        n = MV_MODEL[a][x]
+        if i % 5 == 0:
+            body = [name + ': ' + ' '.join(recs[0][:n])]                 # single record on the field line
+        else:
+            body = [name + ':'] + [' ' + ' '.join(t[:n]) for t in recs]
+        st['lines'] = ['Source: pkg%d' % (i % 5)] + body + ['Version: 1.%d' % (i % 7)]
+        st['form'] = PRIME_FORMS[i % len(PRIME_FORMS)]
+        st['api'] = 'ctor' if i % 3 == 0 else 'iter'
+        st['ws'] = bool(i % 2)
+    elif payload == 'recs':
+        st['recs'] = recs
+        if i % 4 == 0:
+            st['single'] = True
+    else:
+        st['v'] = v
+    return st
+
+
+def mk_judge(cls, x, v, k, depth=None, layout=None):
+    fields_pool = CLASS_FIELDS[cls]
+    target = spell(x, k + 1) if x in DISPLAY else x
+    f0, f2, f3 = fields_pool[0], fields_pool[2], fields_pool[3]
+    old = [spell(x, k) if x in DISPLAY else x, 'old']
+    own = sorted(MV_MODEL[cls])
+    ownf = [DISPLAY[own[k % len(own)]], {'recs': RECS[k % len(RECS)]}] if own else [f3, '\n z8\n z9']
+    lay = k % 6 if layout is None else layout
+    if lay == 0:
+        fields = [[f0, 'p1'], old, [f2, 'z9']]                      # middle, replace
+    elif lay == 1:
+        fields = [old, [f0, 'p1'], [f2, 'z9'], [f3, '1']]           # first, replace
+    elif lay == 2:
+        fields = [[f0, 'p1\n p2'], old, ownf, [f2, 'z9']]           # before the class's own multivalued field
+    elif lay == 3:
+        fields = [[f0, 'p1'], [f2, 'z9']]                           # new, last
+    elif lay == 4:
+        fields = [ownf, [f0, 'p1'], old]                            # last, replace, after the own multivalued field
+    else:
+        fields = []                                                 # sole, new
+    st = {'op': 'judge', 'cls': cls, 'fields': fields, 'target': target, 'v': v,
+          'route': SUB_ROUTES[k % len(SUB_ROUTES)], 'build': SUB_BUILDS[(k // 2) % len(SUB_BUILDS)]}
+    if depth:
+        st['depth'] = depth
+    return st
+
+
+def sub_enum_cases(quick=False):
+    """Every (name X, class A where X is multivalued, class B where it is ordinary) x 6 ways of priming x 2 orders.
+    Order 1 (B judged BEFORE A primes) comes first, so that in every process the first case of a name meets a class
+    that has not yet seen the name primed.  quick: every triple in both orders, three of the six ways of priming per
+    order (the complementary three in the other order)."""
+    i = 0
+    for order in (1, 0):
+        for x in ENUM_X:
+            As = [c for c in SUBCLASSES if x in MV_MODEL[c]]
+            Bs = [c for c in SUBCLASSES if x not in MV_MODEL[c]]
+            for a in As:
+                for bi, b in enumerate(Bs):
+                    for hi in range(len(PRIME_HOWS)):
+                        i += 1
+                        if quick and (i + order) % 2:
+                            continue
+                        b2 = Bs[(bi + 1 + i % (len(Bs) - 1)) % len(Bs)]
+                        h1 = HOSTILE_X[i % len(HOSTILE_X)]
+                        h2 = HOSTILE_X[(i // 7 + 3) % len(HOSTILE_X)]
+                        g = GOOD_X[(i // 2) % len(GOOD_X)]
+                        prime = mk_prime(a, x, hi, i, h1)
+                        if order == 0:
+                            steps = [prime, mk_judge(b, x, h1, i), mk_judge(b, x, g, i + 1, depth='one'),
+                                     mk_judge(b2, x, h2, i + 2)]
+                        else:
+                            steps = [mk_judge(b, x, h1, i), prime, mk_judge(b, x, h1, i + 3),
+                                     mk_judge(b2, x, g, i + 1, depth='one'), mk_judge(b, x, h2, i + 2)]
+                        yield {'kind': 'sub', 'wl': 'enum', 'steps': steps}
+
+
+def sub_ws_cases(quick=False):
+    """Whitespace-only continuation lines followed by further fields: every class x every WS value x three layouts in
+    which the target is not the last field x two ways of building the paragraph; every (class, value) is re-read in every
+    (form, API) pair once, the other five (layout, build) variants in five rotating pairs."""
+    i = 0
+    for cls in SUBCLASSES:
+        names = [x for x in ENUM_X if x not in MV_MODEL[cls]]
+        for vi, v in enumerate(WS_VALUES):
+            for lay in (0, 1, 2):
+                for build in ('assign', 'parse'):
+                    i += 1
+                    if quick and lay not in (vi % 3, (vi + 1) % 3):
+                        continue             # quick: two of the three layouts per value
+                    x = names[i % len(names)] if i % 3 else ('Description', 'Package-List')[i % 2]
+                    # every (form, API) pair once per (class, value); the other layouts / builds: a rotating selection
+                    st = mk_judge(cls, x, v, i, depth='all' if (lay, build) == (vi % 3, ('assign', 'parse')[vi % 2])
+                                  else 'ws', layout=lay)
+                    st['build'] = build
+                    st['route'] = ('setitem', 'update', 'setitem', 'ctor')[i % 4]
+                    yield {'kind': 'sub', 'wl': 'ws-enum', 'steps': [st]}
+
+
+REL_FIELDS = {'Packages': ['Depends', 'Pre-Depends', 'Recommends', 'Suggests', 'Breaks', 'Conflicts', 'Provides', 'Replaces',
+                           'Enhances', 'Built-Using'],
+              'Sources': ['Build-Depends', 'Build-Depends-Indep', 'Build-Depends-Arch', 'Build-Conflicts',
+                          'Build-Conflicts-Indep', 'Build-Conflicts-Arch', 'Binary'],
+              'BuildInfo': ['Installed-Build-Depends']}
+
+
+def sub_field_cases():
+    """Every class x each of its usual ordinary fields (incl. the fields the class offers structured access to:
+    relationship fields, Version) and 'Package-List': three hostile values and one accepted multi-line value."""
+    i = 0
+    for cls in SUBCLASSES:
+        names = list(CLASS_FIELDS[cls])
+        for n in REL_FIELDS.get(cls, []) + ['Version', 'Package-List']:
+            if n not in names:
+                names.append(n)
+        for name in names:
+            if name.lower() in MV_MODEL[cls]:
+                continue
+            i += 1
+            steps = [mk_judge(cls, name, HOSTILE_X[(i + j * 3) % len(HOSTILE_X)], i + j) for j in range(3)]
+            steps.append(mk_judge(cls, name, (GOOD_X + WS_VALUES)[i % (len(GOOD_X) + len(WS_VALUES))], i + 3, depth='one'))
+            yield {'kind': 'sub', 'wl': 'field-enum', 'steps': steps}
+
+
+def ws_value(r):
+    first = r.choice(['a', '', 'text %d' % r.randint(0, 9), '0123 12 n.dsc'])
+    bound = r.choice(['\n', '\n', '\n', '\r\n', '\r'])
+    lines = [r.choice([' b', ' .', '\tB: x', ' Inj: y', ' 4567ef 8 m.tar.gz', '  deeper']) for _ in range(r.randint(0, 3))]
+    for _ in range(r.choice([1, 1, 2])):
+        lines.insert(r.randint(0, len(lines)), r.choice([' ', '\t', '  ', ' \t ']))
+    return first + bound + bound.join(lines)
+
+
+def rand_sub_judge(r, x, k):
+    if x is not None and r.random() < 0.75:
+        cls = r.choice([c for c in SUBCLASSES if x not in MV_MODEL[c]])
+        tname = x
+    else:
+        cls = r.choice(SUBCLASSES)
+        q = r.random()
+        if q < 0.35:
+            tname = r.choice([n for n in ALL_X if n not in MV_MODEL[cls]])
+        elif q < 0.75:
+            tname = r.choice(CLASS_FIELDS[cls])
+        elif q < 0.85:
+            tname = 'Package-List'
+        else:
+            tname = 'X-Sub-%d' % r.randint(0, 3)
+    q = r.random()
+    if q < 0.3:
+        v = ws_value(r)
+    elif q < 0.85:
+        v = rand_value(r)
+    else:
+        v = r.choice(GOOD_X + HOSTILE_X)
+    st = mk_judge(cls, tname, v, k + r.randint(0, 29))
+    # neighbours from the class's own field list instead of the fixed three
+    pool = [n for n in CLASS_FIELDS[cls] if n.lower() != tname.lower()]
+    ren = {}
+    for f in st['fields']:
+        if isinstance(f[1], str) and f[1] != 'old' and f[0] in CLASS_FIELDS[cls][:4]:
+            ren.setdefault(f[0], r.choice([n for n in pool if n not in ren.values()]))
+            f[0] = ren[f[0]]
+            if r.random() < 0.3:
+                val = r.choice(NEIGHBOUR_VALUES)
+                f[1] = val % k if '%d' in val else val
+    st['route'] = r.choice(SUB_ROUTES)
+    st['build'] = r.choice(SUB_BUILDS)
+    return st
+
+
+def rand_sub_case(r, k):
+    x = (r.choice(ENUM_X[:9]) if r.random() < 0.6 else r.choice(ALL_X)) if r.random() < 0.75 else None
+    steps = []
+    for j in range(r.choice([1, 1, 2, 3, 4, 5, 6])):
+        if x is not None and r.random() < 0.35:
+            a = r.choice([c for c in SUBCLASSES if x in MV_MODEL[c]])
+            v = steps[-1]['v'] if steps and 'v' in steps[-1] and r.random() < 0.5 else r.choice(HOSTILE_X + [rand_value(r)])
+            steps.append(mk_prime(a, x, r.randrange(len(PRIME_HOWS)), k + j + r.randint(0, 34), v))
+        else:
+            st = rand_sub_judge(r, x, k + j)
+            # now and then the very value a prime step has just put under the name in another class
+            if steps and steps[-1]['op'] == 'prime' and 'v' in steps[-1] and r.random() < 0.5:
+                st['v'] = steps[-1]['v']
+            steps.append(st)
+    if not any(s['op'] == 'judge' for s in steps):
+        steps.append(rand_sub_judge(r, x, k))
+    return {'kind': 'sub', 'wl': 'hist', 'steps': steps}
+
+
+# ---- execution
+
+def do_prime(ctx, st):
+    """A class in which the name is multivalued handles it.  Nothing is demanded; any exception is only counted."""
+    from ..core import MonitorViolation
+    clsname, name, how = st['cls'], st['name'], st['how']
+    cls = sub_cls(clsname)
+    kind = 'lines' if 'lines' in st else ('recs' if 'recs' in st else 'string')
+    ctx.count('sub:prime')
+    ctx.count('sub:prime:%s:%s' % (how, kind))
+    ctx.count('sub:prime-cls:' + clsname)
+    PRIMED.add(name.lower())
+
+    def attempt(what, fn, *a, **kw):
+        # every action on its own: what the class refuses (copy() of record lists, dump of a string under a
+        # multivalued name ...) is only counted, and the remaining actions still run
+        try:
+            return fn(*a, **kw)
+        except MonitorViolation:
+            raise
+        except Exception as e:
+            ctx.count('sub:prime-raised:%s:%s' % (what, type(e).__name__))
+            return None
+
+    if how == 'parse':
+        strict = None if st.get('ws', True) else WS_FALSE
+        src = parse_source(ctx, st['lines'], st['form'])
+        if st.get('api') == 'ctor':
+            objs = [attempt('parse', cls, src, strict=strict)]
+        else:
+            objs = attempt('parse', lambda: list(cls.iter_paragraphs(src, strict=strict))) or []
+        for o in objs:
+            if o is not None:
+                attempt('dump', o.dump)
+                attempt('copy', o.copy)
+        return
+    if kind == 'recs':
+        keys = DECL[clsname].get(name.lower())
+        if keys is None:
+            ctx.count('sub:prime-skipped:not-declared-by-class')
+            return
+        val = make_records(keys, st)
+    else:
+        val = st['v']
+    if how == 'dict':
+        d = attempt('assign', cls, {'Source': 'src', name: val, 'Version': '1.0-1'})
+    else:
+        d = cls()
+        d['Source'] = 'src'
+        if how == 'update':
+            attempt('assign', d.update, {name: val})
+        else:
+            attempt('assign', d.__setitem__, name, val)
+        d['Version'] = '1.0-1'
+    if d is None:
+        return
+    text = attempt('dump', d.dump)
+    if text is not None:
+        attempt('reread', lambda: list(cls.iter_paragraphs(text)))
+    attempt('copy', d.copy)
+
+
+def build_obj(cls, pairs, build):
+    if build == 'dict':
+        return cls(dict(pairs))
+    d = cls()
+    for name, val in pairs:
+        d[name] = val
+    if build == 'parse':
+        return cls(d.dump())
+    if build == 'parse-stream':
+        return cls(io.StringIO(d.dump()))
+    return d
+
+
+def do_judge(ctx, st, idx, sink, depth, in_case):
+    """One assignment of a string to an ORDINARY field of a subclass paragraph, judged as on the assignment side."""
+    from ..core import MonitorViolation
+    from .. import contracts
+    clsname, target, v = st['cls'], st['target'], st['v']
+    route, build = st.get('route', 'setitem'), st.get('build', 'assign')
+    cls = sub_cls(clsname)
+    tl = target.lower()
+    if not ordinary(clsname, target):
+        ctx.count('sub:skipped:target-declared-multivalued-by-class')
+        return
+    pairs = []
+    for name, val in st['fields']:
+        if isinstance(val, dict):
+            keys = DECL[clsname].get(name.lower())
+            if keys is None or name.lower() not in MV_MODEL[clsname]:
+                ctx.count('sub:skipped:records-for-undeclared-field')
+                continue
+            val = make_records(keys, val)
+            ctx.count('sub:judge-with-own-multivalued-neighbour')
+        elif not ordinary(clsname, name):
+            ctx.count('sub:skipped:neighbour-declared-multivalued-by-class')
+            continue
+        pairs.append((name, val))
+    present = any(n.lower() == tl for n, _ in pairs)
+    if route == 'setdefault' and present:
+        route = 'setitem'                # setdefault on a present field assigns nothing
+    if any(not isinstance(val, str) for _, val in pairs) and (route in ('ctor', 'copy') or build == 'dict'):
+        # the classes cannot be constructed from a mapping that holds record lists (copy() does just that): such a
+        # paragraph is built by assignment and assigned to through item assignment
+        ctx.count('sub:records-neighbour:route-or-build-replaced')
+        route = 'setitem' if route in ('ctor', 'copy') else route
+        build = 'assign' if build == 'dict' else build
+    dfx = model.defects(v)
+    where = '%s paragraph (built by %s from %r)' % (clsname, build, pairs)
+    ctx.count('sub:judge')
+    ctx.count('sub:judge:' + clsname)
+    ctx.count('sub:route:' + route)
+    ctx.count('sub:build:' + build)
+    elsewhere = tl in DISPLAY
+    if elsewhere:
+        ctx.count('sub:judge:name-multivalued-in-another-class')
+        ctx.count('sub:judge-x:' + tl)
+        if tl in PRIMED:
+            ctx.mon('M.cross-class')
+            if dfx:
+                ctx.count('sub:hostile-after-prime-of-name')
+            if tl in in_case:
+                ctx.count('sub:judge-after-prime-in-same-case')
+                if in_case[tl] == v:
+                    ctx.count('sub:judge-same-string-as-prime')
+        else:
+            ctx.count('sub:judge-before-any-prime-of-name')
+    if model.has_boundary(v):
+        ctx.nontrivial(case={'cls': clsname, 'target': target, 'v': v},
+                       key=hashlib.sha1(('sub\0%s\0%s\0%s' % (clsname, tl, v)).encode('utf-8')).hexdigest())
+    if route == 'ctor':
+        items = []
+        for name, val in pairs:
+            items.append((name, v if name.lower() == tl else val))
+        if not present:
+            items.append((target, v))
+        try:
+            K_ACTIVE[0] = True
+            d = cls(dict(items))
+        except MonitorViolation as e:
+            contracts.PENDING[:] = []
+            sink(e.key, e.msg)
+            return
+        except Exception as e:
+            t = type(e).__name__
+            ctx.count('sub:rejected')
+            ctx.extra['ctor_reject_types'][t] = ctx.extra['ctor_reject_types'].get(t, 0) + 1
+            if not dfx:
+                ctx.extra['rejected_without_stated_defect'] += 1
+            return
+        finally:
+            K_ACTIVE[0] = False
+    else:
+        try:
+            d = build_obj(cls, pairs, build)
+            before = (list(d), d.dump())
+        except MonitorViolation:
+            raise
+        except Exception as e:           # an ordinary paragraph the class cannot build / dump: not this property
+            ctx.count('sub:build-raised:' + type(e).__name__)
+            return
+        try:
+            K_ACTIVE[0] = True
+            if route == 'update':
+                d.update({target: v})
+            elif route == 'setdefault':
+                d.setdefault(target, v)
+            else:
+                d[target] = v
+        except MonitorViolation as e:
+            contracts.PENDING[:] = []
+            sink(e.key, e.msg)
+            return
+        except Exception as e:
+            K_ACTIVE[0] = False
+            ctx.count('sub:rejected')
+            if not isinstance(e, ValueError):
+                sink('rejection-not-ValueError/subclass-layer',
+                     'assigning %r to %r of a %s raised %s (%s), not ValueError' % (v, target, where, type(e).__name__, e))
+            if not dfx:
+                ctx.extra['rejected_without_stated_defect'] += 1
+                ctx.count('sub:rejected-without-stated-defect')
+            ctx.mon('M.unchanged')
+            try:
+                after = (list(d), d.dump())
+            except Exception as e2:
+                after = ('<list/dump raised %s: %s>' % (type(e2).__name__, e2),)
+            if after != before:
+                sink('rejected-assignment-changed-paragraph/subclass-layer',
+                     'assigning %r to %r of a %s was rejected (%s) but list/dump changed: %r -> %r'
+                     % (v, target, where, type(e).__name__, before, after))
+            return
+        finally:
+            K_ACTIVE[0] = False
+    # ---- accepted
+    ctx.count('sub:accepted')
+    ctx.count('sub:accepted:' + clsname)
+    ctx.mon('M.must-reject')
+    ctx.mon('M.sub.must-reject')
+    if dfx:
+        try:
+            shown = d.dump()
+        except Exception as e:
+            shown = '<dump raised %s>' % type(e).__name__
+        sink('defective-value-accepted/%s/subclass-layer' % dfx[0],
+             'value %r has the stated defect(s) %s but assigning it to %r (%s) of a %s was accepted; dump is %r'
+             % (v, '+'.join(dfx), target, route, where, shown))
+        return
+    sel = (zlib.crc32(v.encode('utf-8')) >> 3) + idx
+    objs = [(d, 'dump of the %s' % where)]
+    if route == 'copy':
+        try:
+            objs.append((d.copy(), 'dump of copy() of the %s' % where))
+            ctx.count('sub:copy-checked')
+        except Exception as e:
+            ctx.count('sub:copy-raised:' + type(e).__name__)      # no must-accept demand
+    for o, what in objs:
+        keys = list(o)
+        values = [x for x in (o[k] for k in keys) if isinstance(x, str)]
+        followed = bool(keys) and keys[-1].lower() != tl
+        check_reread(ctx, o, v, None, what=what, depth=depth, sel=sel, values=values, suffix='/subclass-layer',
+                     sub=clsname, sink=sink, followed=followed)
+
+
+def exec_step(ctx, st, idx, sink, depth, in_case):
+    if st['op'] == 'prime':
+        do_prime(ctx, st)
+        if 'v' in st:
+            in_case[st['name'].lower()] = st['v']
+        else:
+            in_case.setdefault(st['name'].lower(), None)
+    else:
+        do_judge(ctx, st, idx, sink, depth, in_case)
+
+
+def step_depth(ctx, st):
+    if ctx.replay:
+        return 'all'
+    if st.get('depth'):
+        return st['depth']
+    if st['op'] != 'judge':
+        return 'none'
+    v = st['v']
+    if model.blank_continuation(v):
+        return 'ws'
+    h = zlib.crc32(v.encode('utf-8'))
+    if '\r' in v:
+        return 'some' if h % 2 else 'one'
+    return 'one' if h % 2 else 'none'
+
+
+_STANDALONE = ('import sys, json\n'
+               'from vp import core\n'
+               'core.bootstrap_repo()\n'
+               'from vp.props import c08\n'
+               'sys.stdout.write("RESULT " + json.dumps(c08.standalone(json.load(sys.stdin))))\n')
+
+
+def standalone(case):
+    """Run one 'sub' case as the only thing this interpreter does (what --replay does): [key, message] or None."""
+    from ..core import Ctx
+    ctx = Ctx(PROP, 'quick', 0, 0, 1, replay=True)
+    ctx.extra['ctor_reject_types'] = {}
+    ctx.extra['rejected_without_stated_defect'] = 0
+    got = []
+    try:
+        run_sub(ctx, case, collect=got)
+    finally:
+        finish(ctx)
+        ctx.cleanup()
+    return list(got[0]) if got else None
+
+
+def fails_standalone(case):
+    """[key, message], None (passes) or 'unknown'."""
+    import json
+    import subprocess
+    import sys
+    from .. import core
+    try:
+        p = subprocess.run([sys.executable, '-B', '-c', _STANDALONE], input=json.dumps(case).encode('ascii'),
+                           stdout=subprocess.PIPE, stderr=subprocess.DEVNULL, timeout=120, cwd=core.VERIF)
+        out = p.stdout.decode('utf-8', 'replace')
+        if p.returncode != 0 or 'RESULT ' not in out:
+            return 'unknown'
+        return json.loads(out.split('RESULT ', 1)[1])
+    except Exception:
+        return 'unknown'
+
+
+def report_sub(ctx, case, i, probs, earlier):
+    """Pick the witness.  The library may keep state between classes and objects and this process has handled many:
+    a witness is only worth something if it fails from a fresh interpreter.  Candidates, smallest first: the judged
+    step alone; the case up to that step; the same with the last steps this process executed before as prelude."""
+    step = case['steps'][i]
+    single = {'kind': 'sub', 'wl': 'witness', 'steps': [step]}
+    upto = {'kind': 'sub', 'wl': 'witness', 'steps': case['steps'][:i + 1]}
+    with_prelude = dict(upto, prelude=earlier[-PRELUDE_STEPS:]) if earlier else None
+    hist = '/depends-on-what-other-classes-or-objects-did-before'
+    cands = [(single, '')]
+    if i:
+        cands.append((upto, hist))
+    if with_prelude is not None:
+        cands.append((with_prelude, hist))
+    fallback = with_prelude or upto
+    note, witness, suffix = None, fallback, ''
+    from ..core import MAX_WITNESS_PER_KEY
+    if all(ctx.viol_count[key + suf] >= MAX_WITNESS_PER_KEY for key, _ in probs for suf in ('', hist)):
+        for key, msg in probs:           # enough witnesses of these mechanisms are on record: count only
+            ctx.violation(key + suffix, msg, witness)
+        return
+    if CONFIRM_BUDGET[0] <= 0:
+        note = ' [witness not re-executed in a fresh interpreter: confirmation budget of this shard used up]'
+    else:
+        CONFIRM_BUDGET[0] -= 1
+        note = (' [NOT reproduced from a fresh interpreter, neither alone nor with the preceding steps of this process '
+                'as prelude: the outcome depends on older history of this process]')
+        suffix = hist
+        for cand, suf in cands:
+            got = fails_standalone(cand)
+            if got == 'unknown':
+                note, suffix = ' [fresh-interpreter confirmation of the witness did not run]', ''
+                break
+            if got is not None:
+                witness, suffix = cand, suf
+                note = (' [confirmed from a fresh interpreter: %s]'
+                        % ('the judged step alone' if cand is single else
+                           'only together with the steps executed before it (the step alone passes)'))
+                break
+    for key, msg in probs:
+        ctx.violation(key + suffix, 'step %d of the history: %s%s' % (i, msg, note), witness)
+
+
+def run_sub(ctx, case, collect=None):
+    snapshot_decl()
+    drop = lambda key, msg: None
+    in_case = {}
+    for st in case.get('prelude') or []:       # witnesses only: what the process had executed before (context, unjudged)
+        exec_step(ctx, st, 0, drop, 'none', in_case)
+    wl = case.get('wl', 'hist')
+    ctx.count('sub:case')
+    ctx.count('sub:case:' + wl)
+    earlier = list(SUBLOG)
+    if len(case['steps']) > 1 and any(s['op'] == 'prime' for s in case['steps']):
+        ctx.count('sub:cross-class-history')
+        if case['steps'][0]['op'] == 'judge':
+            ctx.count('sub:cross-class-history:judge-first')
+        else:
+            ctx.count('sub:cross-class-history:prime-first')
+    for i, st in enumerate(case['steps']):
+        if i:
+            ctx.evaluations += 1
+        probs = []
+        exec_step(ctx, st, i, lambda key, msg: probs.append((key, msg)), step_depth(ctx, st), in_case)
+        if collect is None and not ctx.replay:
+            SUBLOG.append(st)
+            if len(SUBLOG) > SUBLOG_KEEP:
+                del SUBLOG[:len(SUBLOG) - SUBLOG_KEEP]
+        if probs:
+            if collect is not None:
+                collect.extend(probs)
+            elif ctx.replay:
+                for key, msg in probs:
+                    ctx.violation(key, 'step %d of the history: %s' % (i, msg), case)
+            else:
+                report_sub(ctx, case, i, probs, earlier)
+            return
+
+
+# ---------------------------------------------------------------------------
 
 def setup(ctx):
     from debian import deb822
@@ -786,6 +1592,14 @@ def setup(ctx):
                            % (key, value, type(exc).__name__, old, now))
 
     contracts.wrap(deb822.Deb822, '__setitem__', 'K.setitem-raise', snapshot=snapshot, on_raise=on_raise)
+    # subclass layer: what each class declares as multivalued, read before any workload runs
+    snapshot_decl()
+    ctx.extra['multivalued_declared_at_start'] = sorted('%s:%s' % (c, n) for c in SUBCLASSES for n in DECL[c])
+    ctx.extra['multivalued_declaration_differs_from_reference_table'] = sorted(
+        '%s:%s' % (c, n) for c in SUBCLASSES for n in set(DECL[c]) ^ set(MV_MODEL[c]))
+    import warnings
+    # Sources/Packages.iter_paragraphs ask for python-apt by default; it is absent here and the internal parser runs
+    warnings.filterwarnings('ignore', message="Parsing of Deb822 data with python3-apt's apt_pkg was requested")
 
 
 K_ACTIVE = [False]     # the K snapshot is taken only while the harness drives an assignment (not inside re-reads)
@@ -801,6 +1615,14 @@ def finish(ctx):
 
 
 def cases(ctx):
+    # subclass layer first (the process is still fresh: no class has seen any multivalued name yet): the cross-class
+    # enumeration, the whitespace-only-continuation enumeration, then seeded histories
+    for j, case in enumerate(itertools.chain(sub_enum_cases(ctx.quick), sub_ws_cases(ctx.quick), sub_field_cases())):
+        if ctx.mine(j):
+            yield case
+    r = ctx.rng('subclass-histories')
+    for k in range(ctx.size(SUB_RANDOM_TOTAL['quick'], SUB_RANDOM_TOTAL['thorough'])):
+        yield rand_sub_case(r, k)
     maxlen = ENUM_MAXLEN[ctx.tier]
     idx = 0
     for k in range(0, maxlen + 1):
@@ -876,7 +1698,8 @@ def check_reread(ctx, d, v, small, what='dump', depth='none', sel=0, values=None
     values: all values of a PARSED paragraph (the blank-continuation guard of the default setting then looks at every
     one of them, and the re-reads are also counted as M.reread-parsed).
     sub: SUBCLASS LAYER - name of the class of d: the dump is re-read through THAT class's iter_paragraphs / constructor
-    (str and bytes always, plus the forms sub_plan() selects) and once through plain Deb822; counted as M.reread-sub.
+    (str always, bytes for every 2nd value, plus the forms sub_plan() selects) and, for the other values, as str through
+    plain Deb822; counted as M.reread-sub.
     sink: called with (key, message) instead of ctx.violation (the subclass layer picks the witness itself)."""
     keys = list(d)
     text = d.dump()
@@ -888,11 +1711,13 @@ def check_reread(ctx, d, v, small, what='dump', depth='none', sel=0, values=None
     rcls = None
     if sub is not None:
         rcls = sub_cls(sub)
-        combos = [('str', 'iter', rcls), ('bytes', 'iter', rcls)]
-        if sub != 'Deb822':
+        combos = [('str', 'iter', rcls)]
+        if depth == 'all' or sub == 'Deb822' or sel & 1 == 0:
+            combos.append(('bytes', 'iter', rcls))
+        if sub != 'Deb822' and (depth == 'all' or sel & 1):
             combos.append(('str', 'iter', None))
         extra = sub_plan(depth, sel)
-        combos.extend((f, a, rcls) for f, a in extra)
+        combos.extend((f, a, rcls) for f, a in extra if (f, a) not in (('str', 'iter'), ('bytes', 'iter')))
         # a whitespace-only continuation line in the assigned value, with further fields behind it
         ws_followed = followed and model.blank_continuation(v)
         if ws_followed:
@@ -1098,6 +1923,9 @@ def run_case(ctx, case):
         return
     if kind == 'penum':
         run_penum(ctx, case)
+        return
+    if kind == 'sub':
+        run_sub(ctx, case)
         return
     if kind != 'enum':
         raise ValueError('unknown case kind %r' % kind)
